@@ -31,6 +31,7 @@ type Config struct {
 	MaxPreempt    int
 	Delays        int  // delay-bounded scheduling: deviations from the deterministic scheduler per path
 	DelayPreempt  bool // delays may also be spent at synchronisation points of the running goroutine
+	DelayAny      bool // a deviation to any runnable goroutine costs one delay (default: skipping i goroutines costs i)
 	SelectFirst   bool
 	SymMapOrder   bool
 	MaxViolations int
